@@ -27,10 +27,12 @@ def run(ctx):
                 "supercells validated by TLC")
     cfgs = ["sc221", "sc221j", "sc221v", "b2s221", "fccnd", "tet2_211v"]
     if not quick:
-        cfgs += ["sc222j", "sc222v", "fcc222", "fcc222v", "b2s221v", "hcp221", "tet2_211"]
+        # (hcp221p: pair clusters only; the triplet expansion on hcp221 ran into the TLC time limit)
+        # fcc222 / fcc222v (8 sites, 2849 interactions) exceed it as well: they stay in C34's thorough tier only
+        cfgs += ["sc222j", "sc222v", "b2s221v", "hcp221p", "tet2_211"]
     for name in cfgs:
         graph_check(ctx, name, INVARIANTS, "C33")
-    for name in (["sc332", "sc332v"] if quick else ["sc332", "sc332v", "fcc222", "fcc222v", "hcp221"]):
+    for name in (["sc332", "sc332v"] if quick else ["sc332", "sc332v", "hcp221p"]):
         trace_check(ctx, name, 6 if quick else 40, 200)
 
 
